@@ -1,8 +1,1906 @@
-//! C18 — not implemented yet.
+//! C18 — the HTTP service always answers well-formed JSON reflecting the workspace.
+//!
+//! Three families:
+//! * `jsonify` (in-process): `Value::jsonify()` of generated values against the Lean model of
+//!   `jsonify`, and the property on the implementation alone: the text is a JSON document
+//!   (strict parser below, `serde_json` as a second opinion) that decodes to the value.
+//! * `decode` (oracle cross-check): the Lean RFC 8259 decoder against the strict parser of
+//!   this file and `serde_json` on generated valid and damaged JSON texts.
+//! * `http`: `dmntk_server::start_server` from the working tree in a child process on a
+//!   loopback port; request sequences (definitions operations, evaluations, echo decisions,
+//!   rejected and malformed requests interleaved) against the handler model
+//!   (`Dmn.Server.serve`) and the repaired-handler specification (`handleFixed`).
 
-use crate::report::Report;
+use crate::c17::{model_xml, Alphabet, MDef};
+use crate::model::Model;
+use crate::report::{Kind, Report};
+use crate::rng::Rng;
+use crate::sexp::Sexp;
+use crate::util::guarded;
 use crate::Cfg;
+use dmntk_common::Jsonify;
+use dmntk_feel::context::FeelContext;
+use dmntk_feel::values::{Value, Values};
+use dmntk_feel::{FeelNumber, Name, Scope};
+use dmntk_model_evaluator::ModelEvaluator;
+use serde_json::json;
+use std::io::{Read, Write};
+use std::net::{TcpListener, TcpStream};
+use std::process::{Child, Command, Stdio};
+use std::str::FromStr;
+use std::sync::Arc;
+use std::time::{Duration, Instant};
 
-pub fn run(_cfg: &Cfg) -> Report {
-  Report::new("C18", "not implemented")
+// ------------------------------------------------------------------------------------------
+// the service in a child process
+// ------------------------------------------------------------------------------------------
+
+/// `vharness child c18-server <port>`: runs the service until the process is killed.
+pub fn server_child(args: &[String], _input: &str) -> i32 {
+  let port = args.first().cloned().unwrap_or_else(|| "0".to_string());
+  let mut system = actix_rt::System::new("c18");
+  match system.block_on(dmntk_server::start_server(Some("127.0.0.1".to_string()), Some(port), None)) {
+    Ok(()) => 0,
+    Err(_) => 3,
+  }
+}
+
+struct Server {
+  child: Child,
+  port: u16,
+}
+
+impl Server {
+  fn start() -> Result<Server, String> {
+    for _attempt in 0..5 {
+      let port = {
+        let l = TcpListener::bind("127.0.0.1:0").map_err(|e| e.to_string())?;
+        l.local_addr().map_err(|e| e.to_string())?.port()
+      };
+      let exe = std::env::current_exe().map_err(|e| e.to_string())?;
+      let child = Command::new(exe)
+        .arg("child")
+        .arg("c18-server")
+        .arg(port.to_string())
+        // the service reads HOST/PORT/DIR from the environment as well: keep them out
+        .env_remove("HOST")
+        .env_remove("PORT")
+        .env_remove("DIR")
+        .env_remove("DMNTK_HOST")
+        .env_remove("DMNTK_PORT")
+        .env_remove("DMNTK_DIR")
+        .stdin(Stdio::null())
+        .stdout(Stdio::null())
+        .stderr(Stdio::null())
+        .spawn()
+        .map_err(|e| e.to_string())?;
+      let mut s = Server { child, port };
+      let t0 = Instant::now();
+      while t0.elapsed() < Duration::from_secs(15) {
+        if let Ok(Some(_)) = s.child.try_wait() {
+          break; // could not bind: try another port
+        }
+        if TcpStream::connect(("127.0.0.1", port)).is_ok() {
+          return Ok(s);
+        }
+        std::thread::sleep(Duration::from_millis(20));
+      }
+      let _ = s.child.kill();
+      let _ = s.child.wait();
+    }
+    Err("the service did not start listening".to_string())
+  }
+  fn alive(&mut self) -> bool {
+    matches!(self.child.try_wait(), Ok(None))
+  }
+}
+
+impl Drop for Server {
+  fn drop(&mut self) {
+    let _ = self.child.kill();
+    let _ = self.child.wait();
+  }
+}
+
+#[derive(Debug, Clone)]
+struct HttpAnswer {
+  status: u16,
+  content_type: String,
+  body: Vec<u8>,
+}
+
+/// One HTTP/1.1 exchange over a fresh connection (`Connection: close`).
+fn http(port: u16, method: &str, path: &str, content_type: Option<&str>, body: &[u8]) -> Result<HttpAnswer, String> {
+  let mut s = TcpStream::connect(("127.0.0.1", port)).map_err(|e| format!("connect: {}", e))?;
+  let _ = s.set_read_timeout(Some(Duration::from_secs(20)));
+  let _ = s.set_write_timeout(Some(Duration::from_secs(20)));
+  let mut head = format!("{} {} HTTP/1.1\r\nHost: 127.0.0.1:{}\r\nConnection: close\r\nContent-Length: {}\r\n", method, path, port, body.len());
+  if let Some(ct) = content_type {
+    head.push_str(&format!("Content-Type: {}\r\n", ct));
+  }
+  head.push_str("\r\n");
+  // the service may answer (and close) before it has read a long body: read what it sent anyway
+  let wrote = s.write_all(head.as_bytes()).and_then(|_| s.write_all(body));
+  let mut raw = vec![];
+  let read = s.read_to_end(&mut raw);
+  if raw.is_empty() {
+    if let Err(e) = wrote {
+      return Err(format!("write: {}", e));
+    }
+    if let Err(e) = read {
+      return Err(format!("read: {}", e));
+    }
+  }
+  let split = raw.windows(4).position(|w| w == b"\r\n\r\n").ok_or_else(|| "no header end".to_string())?;
+  let head = String::from_utf8_lossy(&raw[..split]).to_string();
+  let mut payload = raw[split + 4..].to_vec();
+  let mut lines = head.split("\r\n");
+  let status_line = lines.next().unwrap_or("");
+  let status: u16 = status_line.split(' ').nth(1).and_then(|x| x.parse().ok()).ok_or_else(|| format!("status line: {}", status_line))?;
+  let mut content_type = String::new();
+  let mut chunked = false;
+  let mut content_length: Option<usize> = None;
+  for l in lines {
+    if let Some((k, v)) = l.split_once(':') {
+      let k = k.trim().to_ascii_lowercase();
+      let v = v.trim();
+      match k.as_str() {
+        "content-type" => content_type = v.to_string(),
+        "transfer-encoding" => chunked = v.to_ascii_lowercase().contains("chunked"),
+        "content-length" => content_length = v.parse().ok(),
+        _ => {}
+      }
+    }
+  }
+  if chunked {
+    let mut out = vec![];
+    let mut i = 0;
+    loop {
+      let e = payload[i..].windows(2).position(|w| w == b"\r\n").ok_or_else(|| "chunk header".to_string())?;
+      let size = usize::from_str_radix(String::from_utf8_lossy(&payload[i..i + e]).trim(), 16).map_err(|_| "chunk size".to_string())?;
+      i += e + 2;
+      if size == 0 {
+        break;
+      }
+      if i + size > payload.len() {
+        return Err("chunk truncated".into());
+      }
+      out.extend_from_slice(&payload[i..i + size]);
+      i += size + 2;
+    }
+    payload = out;
+  } else if let Some(n) = content_length {
+    if payload.len() < n {
+      return Err("body truncated".into());
+    }
+    payload.truncate(n);
+  }
+  Ok(HttpAnswer { status, content_type, body: payload })
+}
+
+// ------------------------------------------------------------------------------------------
+// a strict RFC 8259 parser (independent of the Lean one; numbers keep their lexeme)
+// ------------------------------------------------------------------------------------------
+
+#[derive(Debug, Clone, PartialEq)]
+enum J {
+  Null,
+  Bool(bool),
+  Num(String),
+  Str(String),
+  Arr(Vec<J>),
+  Obj(Vec<(String, J)>),
+}
+
+impl J {
+  fn sexp(&self) -> Sexp {
+    match self {
+      J::Null => Sexp::atom("null"),
+      J::Bool(b) => Sexp::tagged("b", vec![Sexp::bool(*b)]),
+      J::Num(t) => Sexp::tagged("n", vec![Sexp::str(t)]),
+      J::Str(t) => Sexp::tagged("str", vec![Sexp::str(t)]),
+      J::Arr(xs) => Sexp::tagged("arr", xs.iter().map(|x| x.sexp()).collect()),
+      J::Obj(ms) => Sexp::tagged("obj", ms.iter().map(|(k, v)| Sexp::list(vec![Sexp::str(k), v.sexp()])).collect()),
+    }
+  }
+  fn get<'a>(&'a self, key: &str) -> Option<&'a J> {
+    match self {
+      J::Obj(ms) => ms.iter().find(|(k, _)| k == key).map(|(_, v)| v),
+      _ => None,
+    }
+  }
+}
+
+struct JP<'a> {
+  cs: &'a [char],
+  i: usize,
+  depth: usize,
+}
+
+impl<'a> JP<'a> {
+  fn ws(&mut self) {
+    while self.i < self.cs.len() && matches!(self.cs[self.i], ' ' | '\t' | '\n' | '\r') {
+      self.i += 1;
+    }
+  }
+  fn peek(&self) -> Option<char> {
+    self.cs.get(self.i).copied()
+  }
+  fn lit(&mut self, word: &str, v: J) -> Result<J, String> {
+    for w in word.chars() {
+      if self.peek() != Some(w) {
+        return Err(format!("bad literal at {}", self.i));
+      }
+      self.i += 1;
+    }
+    Ok(v)
+  }
+  fn hex4(&mut self) -> Result<u32, String> {
+    let mut v = 0u32;
+    for _ in 0..4 {
+      let c = self.peek().ok_or("eof in \\u")?;
+      v = v * 16 + c.to_digit(16).ok_or("bad hex digit")?;
+      self.i += 1;
+    }
+    Ok(v)
+  }
+  fn string(&mut self) -> Result<String, String> {
+    // at the opening quotation mark
+    self.i += 1;
+    let mut out = String::new();
+    loop {
+      let c = self.peek().ok_or("eof in string")?;
+      self.i += 1;
+      match c {
+        '"' => return Ok(out),
+        '\\' => {
+          let e = self.peek().ok_or("eof in escape")?;
+          self.i += 1;
+          match e {
+            '"' => out.push('"'),
+            '\\' => out.push('\\'),
+            '/' => out.push('/'),
+            'b' => out.push('\u{8}'),
+            'f' => out.push('\u{c}'),
+            'n' => out.push('\n'),
+            'r' => out.push('\r'),
+            't' => out.push('\t'),
+            'u' => {
+              let u = self.hex4()?;
+              if (0xD800..0xDC00).contains(&u) {
+                if self.peek() != Some('\\') {
+                  return Err("lone surrogate".into());
+                }
+                self.i += 1;
+                if self.peek() != Some('u') {
+                  return Err("lone surrogate".into());
+                }
+                self.i += 1;
+                let lo = self.hex4()?;
+                if !(0xDC00..0xE000).contains(&lo) {
+                  return Err("lone surrogate".into());
+                }
+                out.push(char::from_u32(0x10000 + (u - 0xD800) * 0x400 + (lo - 0xDC00)).ok_or("bad pair")?);
+              } else if (0xDC00..0xE000).contains(&u) {
+                return Err("lone surrogate".into());
+              } else {
+                out.push(char::from_u32(u).ok_or("bad scalar")?);
+              }
+            }
+            _ => return Err("unknown escape".into()),
+          }
+        }
+        c if (c as u32) < 0x20 => return Err("control character in string".into()),
+        c => out.push(c),
+      }
+    }
+  }
+  fn number(&mut self) -> Result<J, String> {
+    let start = self.i;
+    if self.peek() == Some('-') {
+      self.i += 1;
+    }
+    match self.peek() {
+      Some('0') => self.i += 1,
+      Some(c) if c.is_ascii_digit() => {
+        while matches!(self.peek(), Some(c) if c.is_ascii_digit()) {
+          self.i += 1;
+        }
+      }
+      _ => return Err(format!("bad number at {}", self.i)),
+    }
+    if self.peek() == Some('.') {
+      self.i += 1;
+      if !matches!(self.peek(), Some(c) if c.is_ascii_digit()) {
+        return Err("digit expected after '.'".into());
+      }
+      while matches!(self.peek(), Some(c) if c.is_ascii_digit()) {
+        self.i += 1;
+      }
+    }
+    if matches!(self.peek(), Some('e') | Some('E')) {
+      self.i += 1;
+      if matches!(self.peek(), Some('+') | Some('-')) {
+        self.i += 1;
+      }
+      if !matches!(self.peek(), Some(c) if c.is_ascii_digit()) {
+        return Err("digit expected in exponent".into());
+      }
+      while matches!(self.peek(), Some(c) if c.is_ascii_digit()) {
+        self.i += 1;
+      }
+    }
+    Ok(J::Num(self.cs[start..self.i].iter().collect()))
+  }
+  fn value(&mut self) -> Result<J, String> {
+    self.depth += 1;
+    if self.depth > 2000 {
+      return Err("too deep".into());
+    }
+    let r = match self.peek() {
+      None => Err("eof".to_string()),
+      Some('"') => self.string().map(J::Str),
+      Some('t') => self.lit("true", J::Bool(true)),
+      Some('f') => self.lit("false", J::Bool(false)),
+      Some('n') => self.lit("null", J::Null),
+      Some('[') => {
+        self.i += 1;
+        self.ws();
+        let mut xs = vec![];
+        if self.peek() == Some(']') {
+          self.i += 1;
+          Ok(J::Arr(xs))
+        } else {
+          loop {
+            self.ws();
+            xs.push(self.value()?);
+            self.ws();
+            match self.peek() {
+              Some(',') => self.i += 1,
+              Some(']') => {
+                self.i += 1;
+                break Ok(J::Arr(xs));
+              }
+              _ => break Err(format!("',' or ']' expected at {}", self.i)),
+            }
+          }
+        }
+      }
+      Some('{') => {
+        self.i += 1;
+        self.ws();
+        let mut ms = vec![];
+        if self.peek() == Some('}') {
+          self.i += 1;
+          Ok(J::Obj(ms))
+        } else {
+          loop {
+            self.ws();
+            if self.peek() != Some('"') {
+              break Err(format!("member name expected at {}", self.i));
+            }
+            let k = self.string()?;
+            self.ws();
+            if self.peek() != Some(':') {
+              break Err(format!("':' expected at {}", self.i));
+            }
+            self.i += 1;
+            self.ws();
+            let v = self.value()?;
+            ms.push((k, v));
+            self.ws();
+            match self.peek() {
+              Some(',') => self.i += 1,
+              Some('}') => {
+                self.i += 1;
+                break Ok(J::Obj(ms));
+              }
+              _ => break Err(format!("',' or '}}' expected at {}", self.i)),
+            }
+          }
+        }
+      }
+      Some(_) => self.number(),
+    };
+    self.depth -= 1;
+    r
+  }
+}
+
+/// `serde_json`'s verdict, `None` when it has no opinion: it parses numbers into `f64` and
+/// rejects those out of range ("number out of range"), which the RFC grammar allows.
+fn serde_accepts(text: &str) -> Option<bool> {
+  match serde_json::from_str::<serde_json::Value>(text) {
+    Ok(_) => Some(true),
+    Err(e) if e.to_string().contains("number out of range") => None,
+    Err(_) => Some(false),
+  }
+}
+
+fn strict_parse(text: &str) -> Result<J, String> {
+  let cs: Vec<char> = text.chars().collect();
+  let mut p = JP { cs: &cs, i: 0, depth: 0 };
+  p.ws();
+  let v = p.value()?;
+  p.ws();
+  if p.i != cs.len() {
+    return Err(format!("trailing text at {}", p.i));
+  }
+  Ok(v)
+}
+
+// ------------------------------------------------------------------------------------------
+// generated values
+// ------------------------------------------------------------------------------------------
+
+#[derive(Debug, Clone)]
+enum G {
+  Null,
+  Bool(bool),
+  /// plain decimal literal
+  Num(String),
+  Str(String),
+  List(Vec<G>),
+  Ctx(Vec<(String, G)>),
+  /// a FEEL expression that evaluates to a temporal value / range
+  Expr(String),
+}
+
+const PLAIN_CHARS: &[char] = &['a', 'b', 'Z', '0', '9', ' ', '_', '-', '/', '.', ':', ',', '{', '}', '[', ']', '\'', 'é', 'ż', 'ß', '€', '中', '\u{7f}', '\u{a0}', '\u{2028}', '\u{ffff}', '🙏', '\u{10ffff}'];
+const ESC_CHARS: &[char] = &['"', '\\', '\n', '\r', '\t', '\u{0}', '\u{1}', '\u{8}', '\u{c}', '\u{1f}', '\u{b}'];
+
+fn gen_string(rng: &mut Rng, escapes: bool) -> String {
+  let len = match rng.below(10) {
+    0 => 0,
+    1..=6 => 1 + rng.below(6),
+    7 | 8 => 6 + rng.below(20),
+    _ => 30 + rng.below(200),
+  } as usize;
+  let mut s = String::new();
+  for _ in 0..len {
+    if escapes && rng.chance(1, 5) {
+      s.push(*rng.pick(ESC_CHARS));
+    } else {
+      s.push(*rng.pick(PLAIN_CHARS));
+    }
+  }
+  s
+}
+
+fn gen_digits(rng: &mut Rng, lo: u64, span: u64) -> String {
+  let n = lo + rng.below(span);
+  let mut s = String::new();
+  for i in 0..n {
+    let d = if i == 0 { 1 + rng.below(9) } else { rng.below(10) };
+    s.push(char::from(b'0' + d as u8));
+  }
+  s
+}
+
+fn gen_number(rng: &mut Rng) -> String {
+  let sign = if rng.chance(1, 3) { "-" } else { "" };
+  match rng.below(10) {
+    0 => "0".to_string(),
+    1 | 2 => format!("{}{}", sign, gen_digits(rng, 1, 3)),
+    3 => format!("{}{}", sign, gen_digits(rng, 10, 24)),
+    4 | 5 => {
+      let a = gen_digits(rng, 1, 5);
+      let b = gen_digits(rng, 1, 6);
+      format!("{}{}.{}", sign, a, b)
+    }
+    6 => format!("{}0.{}", sign, gen_digits(rng, 1, 5)),
+    // small magnitudes: the decimal library prints these in scientific notation and
+    // `scientific_to_plain` rewrites them
+    7 => {
+      let z = 5 + rng.below(6) as usize;
+      format!("{}0.{}{}", sign, "0".repeat(z), gen_digits(rng, 1, 3))
+    }
+    8 => {
+      let a = gen_digits(rng, 1, 3);
+      let z = rng.below(30) as usize;
+      format!("{}{}{}", sign, a, "0".repeat(z))
+    }
+    _ => {
+      let a = gen_digits(rng, 2, 1);
+      let b = gen_digits(rng, 2, 1);
+      format!("{}{}.{}0", sign, a, b)
+    }
+  }
+}
+
+const TEMPORALS: &[&str] = &[
+  "date(\"2021-01-01\")",
+  "time(\"10:20:30\")",
+  "date and time(\"2021-01-01T10:20:30\")",
+  "duration(\"P1Y2M\")",
+  "duration(\"P1DT2H\")",
+  "[1..10]",
+];
+
+fn gen_value(rng: &mut Rng, depth: u32, escapes: bool, temporals: bool) -> G {
+  let k = if depth == 0 { rng.below(6) } else { rng.below(10) };
+  match k {
+    0 => G::Null,
+    1 => G::Bool(rng.chance(1, 2)),
+    2 => G::Num(gen_number(rng)),
+    3 | 4 => G::Str(gen_string(rng, escapes)),
+    5 => {
+      if temporals && rng.chance(1, 3) {
+        G::Expr(rng.pick(TEMPORALS).to_string())
+      } else {
+        G::Str(gen_string(rng, escapes))
+      }
+    }
+    6 | 7 => {
+      let n = rng.below(5);
+      G::List((0..n).map(|_| gen_value(rng, depth - 1, escapes, temporals)).collect())
+    }
+    _ => {
+      let n = rng.below(5);
+      let mut es: Vec<(String, G)> = vec![];
+      for _ in 0..n {
+        let mut key = gen_string(rng, escapes).trim().to_string();
+        if key.chars().count() > 12 {
+          key = key.chars().take(12).collect::<String>().trim().to_string();
+        }
+        if key.is_empty() {
+          key = "k".to_string();
+        }
+        if es.iter().any(|(k, _)| *k == key) {
+          continue;
+        }
+        es.push((key, gen_value(rng, depth - 1, escapes, temporals)));
+      }
+      G::Ctx(es)
+    }
+  }
+}
+
+fn eval_feel(text: &str) -> Option<Value> {
+  let s = Scope::default();
+  let n = dmntk_feel_parser::parse_expression(&s, text, false).ok()?;
+  dmntk_feel_evaluator::evaluate(&s, &n).ok()
+}
+
+fn to_value(g: &G) -> Option<Value> {
+  Some(match g {
+    G::Null => Value::Null(None),
+    G::Bool(b) => Value::Boolean(*b),
+    G::Num(t) => Value::Number(FeelNumber::from_str(t).ok()?),
+    G::Str(s) => Value::String(s.clone()),
+    G::List(xs) => Value::List(Values::new(xs.iter().map(to_value).collect::<Option<Vec<_>>>()?)),
+    G::Ctx(es) => {
+      let mut ctx = FeelContext::default();
+      for (k, v) in es {
+        ctx.set_entry(&Name::from(k.as_str()), to_value(v)?);
+      }
+      Value::Context(ctx)
+    }
+    G::Expr(t) => eval_feel(t)?,
+  })
+}
+
+fn feel_string_literal(s: &str) -> String {
+  let mut out = String::from("\"");
+  for c in s.chars() {
+    match c {
+      '"' => out.push_str("\\\""),
+      '\\' => out.push_str("\\\\"),
+      c if (c as u32) < 0x20 || (c as u32) >= 0x7f => {
+        if (c as u32) <= 0xffff {
+          out.push_str(&format!("\\u{:04X}", c as u32));
+        } else {
+          out.push_str(&format!("\\U{:06X}", c as u32));
+        }
+      }
+      c => out.push(c),
+    }
+  }
+  out.push('"');
+  out
+}
+
+/// The value as a FEEL literal (the text sent to `/evaluate/...`).
+fn to_feel(g: &G) -> String {
+  match g {
+    G::Null => "null".into(),
+    G::Bool(b) => b.to_string(),
+    G::Num(t) => {
+      if let Some(r) = t.strip_prefix('-') {
+        format!("(-{})", r)
+      } else {
+        t.clone()
+      }
+    }
+    G::Str(s) => feel_string_literal(s),
+    G::List(xs) => format!("[{}]", xs.iter().map(to_feel).collect::<Vec<_>>().join(", ")),
+    G::Ctx(es) => format!("{{{}}}", es.iter().map(|(k, v)| format!("{}: {}", feel_string_literal(k), to_feel(v))).collect::<Vec<_>>().join(", ")),
+    G::Expr(t) => t.clone(),
+  }
+}
+
+/// The proposed repair of `Value::jsonify` / `FeelContext::jsonify`, written in Rust as it
+/// would go into /repo, so that the run ties it to the proved Lean function `jsonifyFixed`
+/// (`Json.escape`): strings, context keys and the kinds without a JSON form are escaped.
+pub fn json_escape(s: &str) -> String {
+  let mut out = String::with_capacity(s.len() + 2);
+  for c in s.chars() {
+    match c {
+      '"' => out.push_str("\\\""),
+      '\\' => out.push_str("\\\\"),
+      '\u{08}' => out.push_str("\\b"),
+      '\t' => out.push_str("\\t"),
+      '\n' => out.push_str("\\n"),
+      '\u{0C}' => out.push_str("\\f"),
+      '\r' => out.push_str("\\r"),
+      c if (c as u32) < 0x20 => out.push_str(&format!("\\u{:04x}", c as u32)),
+      c => out.push(c),
+    }
+  }
+  out
+}
+
+fn jsonify_repaired(v: &Value) -> String {
+  match v {
+    Value::Boolean(b) => format!("{}", b),
+    Value::Context(ctx) => format!("{{{}}}", ctx.iter().map(|(name, value)| format!("\"{}\": {}", json_escape(&name.to_string()), jsonify_repaired(value))).collect::<Vec<String>>().join(", ")),
+    Value::List(items) => format!("[{}]", items.as_vec().iter().map(jsonify_repaired).collect::<Vec<String>>().join(", ")),
+    Value::Number(n) => n.jsonify(),
+    Value::Null(_) => "null".to_string(),
+    Value::String(s) => format!("\"{}\"", json_escape(s)),
+    other => format!("\"{}\"", json_escape(&other.to_string())),
+  }
+}
+
+/// The structure of a value as the model's `JV` (the rendering itself is the model's job).
+fn to_jv(v: &Value) -> Sexp {
+  match v {
+    Value::Null(_) => Sexp::list(vec![Sexp::atom("null")]),
+    Value::Boolean(b) => Sexp::tagged("b", vec![Sexp::bool(*b)]),
+    Value::Number(n) => Sexp::tagged("n", vec![Sexp::str(&n.to_string())]),
+    Value::String(s) => Sexp::tagged("str", vec![Sexp::str(s)]),
+    Value::List(items) => Sexp::tagged("l", items.as_vec().iter().map(to_jv).collect()),
+    Value::Context(ctx) => Sexp::tagged("c", ctx.iter().map(|(k, v)| Sexp::list(vec![Sexp::str(&k.to_string()), to_jv(v)])).collect()),
+    other => Sexp::tagged("o", vec![Sexp::str(&other.to_string())]),
+  }
+}
+
+/// The JSON document the value stands for (computed here, independently of the driver).
+fn to_expected(v: &Value) -> J {
+  match v {
+    Value::Null(_) => J::Null,
+    Value::Boolean(b) => J::Bool(*b),
+    Value::Number(n) => J::Num(n.to_string()),
+    Value::String(s) => J::Str(s.clone()),
+    Value::List(items) => J::Arr(items.as_vec().iter().map(to_expected).collect()),
+    Value::Context(ctx) => J::Obj(ctx.iter().map(|(k, v)| (k.to_string(), to_expected(v))).collect()),
+    other => J::Str(other.to_string()),
+  }
+}
+
+#[derive(Default, Clone, Copy)]
+struct Traits {
+  other_kind: bool,
+  needs_escape: bool,
+  compound: bool,
+  strings: bool,
+}
+
+fn traits(v: &Value, t: &mut Traits) {
+  let esc = |s: &str| s.chars().any(|c| c == '"' || c == '\\' || (c as u32) < 0x20);
+  match v {
+    Value::Null(_) | Value::Boolean(_) | Value::Number(_) => {}
+    Value::String(s) => {
+      t.strings = true;
+      if esc(s) {
+        t.needs_escape = true;
+      }
+    }
+    Value::List(items) => {
+      t.compound = true;
+      items.as_vec().iter().for_each(|x| traits(x, t));
+    }
+    Value::Context(ctx) => {
+      t.compound = true;
+      for (k, x) in ctx.iter() {
+        t.strings = true;
+        if esc(&k.to_string()) {
+          t.needs_escape = true;
+        }
+        traits(x, t);
+      }
+    }
+    _ => t.other_kind = true,
+  }
+}
+
+const SIG_RAW: &str = "jsonify writes a string or context key containing '\"', '\\' or a control character without escaping";
+const SIG_OTHER: &str = "jsonify writes a value without JSON form as the bare text 'jsonify not implemented for: ...'";
+const SIG_NUM: &str = "jsonify writes a number text that is not a JSON number";
+const SIG_DECODE: &str = "jsonify text does not decode to the value";
+const SIG_REPLACE: &str = "POST /definitions/replace of a stored model answers 'already exist' (the handler calls Workspace::add)";
+
+fn failure_signature(t: &Traits, numsok: bool) -> &'static str {
+  if t.other_kind {
+    SIG_OTHER
+  } else if t.needs_escape {
+    SIG_RAW
+  } else if !numsok {
+    SIG_NUM
+  } else {
+    SIG_DECODE
+  }
+}
+
+fn field<'a>(s: &'a Sexp, tag: &str) -> Option<&'a Sexp> {
+  s.as_list()?.iter().find_map(|p| {
+    let l = p.as_list()?;
+    if l.first()?.as_atom()? == tag {
+      l.get(1)
+    } else {
+      None
+    }
+  })
+}
+
+fn chars_of(s: &Sexp) -> Option<String> {
+  let l = s.as_list()?;
+  if l.first()?.as_atom()? != "s" {
+    return None;
+  }
+  l[1..].iter().map(|a| a.as_atom()?.parse::<u32>().ok().and_then(char::from_u32)).collect()
+}
+
+// ------------------------------------------------------------------------------------------
+// family `jsonify`
+// ------------------------------------------------------------------------------------------
+
+fn run_jsonify(cfg: &Cfg, rep: &mut Report, model: &mut Model, rng: &mut Rng) {
+  let n = if cfg.tier == "thorough" { 60_000 } else { 3_000 };
+  let mut cases: Vec<(G, Value)> = vec![];
+  // corpus: the witnesses of F17
+  let corpus = vec![
+    G::Str("a\"b\\c\n".into()),
+    G::Ctx(vec![("a\"b".into(), G::Null)]),
+    G::Expr("date(\"2021-01-01\")".into()),
+    G::Num("-0.00000015".into()),
+    G::Ctx(vec![("k 1".into(), G::Str("é/🙏".into())), ("n".into(), G::List(vec![G::Num("-1.5".into()), G::Null]))]),
+    G::List(vec![]),
+    G::Ctx(vec![]),
+  ];
+  for g in corpus {
+    if let Some(v) = to_value(&g) {
+      cases.push((g, v));
+    }
+  }
+  for i in 0..n {
+    let escapes = i % 3 != 0;
+    let temporals = i % 5 == 0;
+    let depth = 1 + rng.below(4) as u32;
+    let g = gen_value(rng, depth, escapes, temporals);
+    match guarded(|| to_value(&g)) {
+      Ok(Some(v)) => cases.push((g, v)),
+      _ => rep.hit("jsonify:value-not-constructible"),
+    }
+  }
+  let reqs: Vec<String> = cases.iter().map(|(_, v)| format!("(c18 jsonify {})", to_jv(v))).collect();
+  let answers = model.ask_batch(&reqs);
+  for (((g, v), req), ans) in cases.iter().zip(reqs.iter()).zip(answers.iter()) {
+    let mut t = Traits::default();
+    traits(v, &mut t);
+    rep.case(req, t.strings || t.compound);
+    rep.hit(if t.other_kind {
+      "jsonify:other-kind"
+    } else if t.needs_escape {
+      "jsonify:needs-escape"
+    } else if t.compound {
+      "jsonify:compound-plain"
+    } else {
+      "jsonify:scalar-plain"
+    });
+    let input = format!("{} ;; value = {}", req, to_feel(g));
+    let a = match Sexp::parse(ans) {
+      Some(a) if field(&a, "text").is_some() => a,
+      _ => {
+        rep.disagree(Kind::ImplVsModel, "jsonify", "driver-error", &input, "", ans);
+        continue;
+      }
+    };
+    let m_text = field(&a, "text").and_then(chars_of).unwrap_or_default();
+    let m_decoded = field(&a, "decoded").map(|s| s.to_string()).unwrap_or_default();
+    let m_expected = field(&a, "expected").map(|s| s.to_string()).unwrap_or_default();
+    let m_fixed = field(&a, "fixed").and_then(chars_of).unwrap_or_default();
+    let m_fixed_decoded = field(&a, "fixeddecoded").map(|s| s.to_string()).unwrap_or_default();
+    let noesc = field(&a, "noesc").and_then(|s| s.as_atom()) == Some("true");
+    let numsok = field(&a, "numsok").and_then(|s| s.as_atom()) == Some("true");
+    // the implementation
+    let text = match guarded(|| v.jsonify()) {
+      Ok(t) => t,
+      Err(p) => {
+        rep.disagree(Kind::ImplVsSpec, "jsonify", "jsonify panics", &input, &format!("panic: {}", p), &m_text);
+        continue;
+      }
+    };
+    // tie: the model writes the same characters
+    if text != m_text {
+      rep.disagree(Kind::ImplVsModel, "jsonify", "jsonify text differs from the model", &input, &text, &m_text);
+    }
+    // the property on the implementation alone
+    let expected = to_expected(v);
+    let parsed = strict_parse(&text);
+    let serde_ok = serde_accepts(&text);
+    let good = matches!(&parsed, Ok(j) if *j == expected);
+    if !good {
+      let sig = failure_signature(&t, numsok);
+      let got = match &parsed {
+        Ok(j) => format!("{} decodes to {}", text, j.sexp()),
+        Err(e) => format!("{} is not a JSON document: {}", text, e),
+      };
+      rep.disagree(Kind::ImplVsSpec, "jsonify_decodes", sig, &input, &got, &format!("a JSON document decoding to {}", expected.sexp()));
+    }
+    // the oracles agree: Lean decoder, strict parser, serde_json (moderate numbers only)
+    let parsed_s = match &parsed {
+      Ok(j) => j.sexp().to_string(),
+      Err(_) => "none".to_string(),
+    };
+    if text == m_text && parsed_s != m_decoded {
+      rep.disagree(Kind::ImplVsModel, "decode", "Lean decoder and strict parser differ", &input, &parsed_s, &m_decoded);
+    }
+    if serde_ok.is_some() && Some(parsed.is_ok()) != serde_ok {
+      rep.disagree(Kind::ImplVsModel, "decode", "strict parser and serde_json differ on acceptance", &input, &format!("{}", parsed.is_ok()), &format!("{:?}", serde_ok));
+    }
+    if expected.sexp().to_string() != m_expected {
+      rep.disagree(Kind::ImplVsModel, "jsonify", "toJson differs from the harness's reading of the value", &input, &expected.sexp().to_string(), &m_expected);
+    }
+    // the theorems, observed: inside the region the model decodes; the repaired renderer always
+    if noesc && numsok && m_decoded != m_expected {
+      rep.disagree(Kind::ImplVsModel, "jsonify", "model violates jsonify_decodes_partial", &input, &m_decoded, &m_expected);
+    }
+    if numsok && m_fixed_decoded != m_expected {
+      rep.disagree(Kind::ImplVsModel, "jsonify", "model violates jsonifyFixed_decodes", &input, &m_fixed_decoded, &m_expected);
+    }
+    // the repair as Rust code writes the same characters as the proved `jsonifyFixed`
+    let repaired = jsonify_repaired(v);
+    if repaired != m_fixed {
+      rep.disagree(Kind::ImplVsModel, "jsonify", "the Rust transcription of the repair differs from jsonifyFixed", &input, &repaired, &m_fixed);
+    }
+    if numsok {
+      // the repaired text is accepted by the independent parsers as well
+      match strict_parse(&m_fixed) {
+        Ok(j) if j == expected => {}
+        other => rep.disagree(Kind::ImplVsModel, "jsonify", "strict parser rejects the repaired rendering", &input, &format!("{:?}", other.map(|j| j.sexp().to_string())), &m_expected),
+      }
+    }
+    if t.needs_escape || t.other_kind || t.compound {
+      rep.sample(json!({"family": "jsonify", "value": to_feel(g), "implementation": text, "model": m_text, "repaired": m_fixed, "decodes_to_value": good}));
+    }
+  }
+}
+
+// ------------------------------------------------------------------------------------------
+// family `decode`: the specification decoder against two independent parsers
+// ------------------------------------------------------------------------------------------
+
+fn gen_json_text(rng: &mut Rng, depth: u32) -> String {
+  let ws = |rng: &mut Rng| -> &'static str { *rng.pick(&["", "", "", " ", "\n", "\t ", "\r\n"]) };
+  let k = if depth == 0 { rng.below(5) } else { rng.below(8) };
+  match k {
+    0 => (*rng.pick(&["null", "true", "false"])).to_string(),
+    1 | 2 => {
+      let int = *rng.pick(&["0", "1", "-0", "-7", "12", "120", "98765432109876543210"]);
+      let frac = *rng.pick(&["", "", ".0", ".5", ".125", ".000001"]);
+      let exp = *rng.pick(&["", "", "", "e0", "E+2", "e-3", "e12"]);
+      format!("{}{}{}", int, frac, exp)
+    }
+    3 | 4 => {
+      let n = rng.below(8);
+      let mut s = String::from("\"");
+      for _ in 0..n {
+        match rng.below(8) {
+          0 => s.push_str(*rng.pick(&["\\\"", "\\\\", "\\/", "\\b", "\\f", "\\n", "\\r", "\\t"])),
+          1 => s.push_str(*rng.pick(&["\\u0041", "\\u00e9", "\\u20AC", "\\ud83d\\ude4f", "\\uFFFF", "\\u0000"])),
+          _ => s.push(*rng.pick(PLAIN_CHARS)),
+        }
+      }
+      s.push('"');
+      s
+    }
+    5 | 6 => {
+      let n = rng.below(4);
+      let items: Vec<String> = (0..n).map(|_| format!("{}{}{}", ws(rng), gen_json_text(rng, depth - 1), ws(rng))).collect();
+      format!("[{}{}]", if n == 0 { ws(rng) } else { "" }, items.join(","))
+    }
+    _ => {
+      let n = rng.below(4);
+      let items: Vec<String> = (0..n)
+        .map(|i| format!("{}\"k{}{}\"{}:{}{}{}", ws(rng), i, *rng.pick(&["", " x", "\\n", "é"]), ws(rng), ws(rng), gen_json_text(rng, depth - 1), ws(rng)))
+        .collect();
+      format!("{{{}{}}}", if n == 0 { ws(rng) } else { "" }, items.join(","))
+    }
+  }
+}
+
+fn damage(rng: &mut Rng, text: &str) -> String {
+  let mut cs: Vec<char> = text.chars().collect();
+  let junk: &[char] = &['"', '\\', ',', ':', '[', ']', '{', '}', '0', '1', '.', 'e', '-', '+', 'u', 'n', 't', ' ', '\n', '\u{1}', 'd', '8', 'D', 'f'];
+  for _ in 0..1 + rng.below(2) {
+    if cs.is_empty() {
+      cs.push(*rng.pick(junk));
+      continue;
+    }
+    let i = rng.below(cs.len() as u64) as usize;
+    match rng.below(3) {
+      0 => {
+        cs.remove(i);
+      }
+      1 => cs.insert(i, *rng.pick(junk)),
+      _ => cs[i] = *rng.pick(junk),
+    }
+  }
+  cs.into_iter().collect()
+}
+
+fn run_decode(cfg: &Cfg, rep: &mut Report, model: &mut Model, rng: &mut Rng) {
+  let n = if cfg.tier == "thorough" { 40_000 } else { 3_000 };
+  let mut texts: Vec<String> = vec![
+    "[[[[[[[[[[[[[[[[[[[[]]]]]]]]]]]]]]]]]]]]".into(),
+    "[1,[2,[3,[4,[5,[6,{\"a\":{\"b\":{\"c\":[]}}}]]]]]]".into(),
+    "01".into(),
+    "[1,]".into(),
+    "{\"a\":1,}".into(),
+    "\"\\ud800\"".into(),
+    "\"\\udc00\\ud800\"".into(),
+    "-".into(),
+    "1.".into(),
+    ".5".into(),
+    "1e".into(),
+    "\"\t\"".into(),
+    " \r\n\t1 \r\n\t".into(),
+    "".into(),
+    "nul".into(),
+    "truefalse".into(),
+    "{\"a\":1 \"b\":2}".into(),
+    "[1 2]".into(),
+    "\"\\x\"".into(),
+    "{1:2}".into(),
+  ];
+  for _ in 0..n {
+    let depth = rng.below(5) as u32;
+    let t = gen_json_text(rng, depth);
+    if rng.chance(1, 2) {
+      texts.push(damage(rng, &t));
+    } else {
+      texts.push(t);
+    }
+  }
+  let reqs: Vec<String> = texts.iter().map(|t| format!("(c18 decode {})", Sexp::str(t))).collect();
+  let answers = model.ask_batch(&reqs);
+  for ((t, req), ans) in texts.iter().zip(reqs.iter()).zip(answers.iter()) {
+    let parsed = strict_parse(t);
+    let serde_ok = serde_accepts(t);
+    rep.case(req, t.len() > 4);
+    rep.hit(if parsed.is_ok() { "decode:accepted" } else { "decode:rejected" });
+    let parsed_s = match &parsed {
+      Ok(j) => j.sexp().to_string(),
+      Err(_) => "none".to_string(),
+    };
+    if &parsed_s != ans {
+      rep.disagree(Kind::ImplVsModel, "decode", "Lean decoder and strict parser differ", &format!("{} ;; text = {:?}", req, t), &parsed_s, ans);
+    }
+    if serde_ok.is_some() && Some(parsed.is_ok()) != serde_ok {
+      rep.disagree(Kind::ImplVsModel, "decode", "strict parser and serde_json differ on acceptance", &format!("{} ;; text = {:?}", req, t), &format!("{}", parsed.is_ok()), &format!("{:?}", serde_ok));
+    }
+  }
+}
+
+// ------------------------------------------------------------------------------------------
+// family `http`
+// ------------------------------------------------------------------------------------------
+
+/// Invocables of every building alphabet model: decision `D` (a literal) and business
+/// knowledge model `E` with one untyped parameter `x`, which it returns (echo).
+const SERVICE_BODY: &str = r##"
+  <decision name="D" id="_d"><variable typeRef="number" name="D"/>
+    <literalExpression><text>1 + 1</text></literalExpression></decision>
+  <businessKnowledgeModel name="E" id="_e"><variable name="E"/>
+    <encapsulatedLogic><formalParameter name="x"/><literalExpression><text>x</text></literalExpression></encapsulatedLogic>
+  </businessKnowledgeModel>"##;
+
+#[derive(Debug, Clone)]
+enum Content {
+  Missing,
+  Bad64,
+  BadUtf8,
+  BadXml(u8),
+  Model(MDef),
+}
+
+#[derive(Debug, Clone)]
+enum Rq {
+  Add(Content),
+  Replace(Content),
+  Remove(Option<String>, Option<String>),
+  Clear,
+  Deploy,
+  Eval { model: String, invocable: String, body: String },
+  /// rejected before a handler runs (actix-web): not part of the handler model
+  Framework(u8),
+}
+
+struct Wire {
+  method: &'static str,
+  path: String,
+  content_type: Option<&'static str>,
+  body: Vec<u8>,
+}
+
+struct Service {
+  bad_body: Option<&'static str>,
+  evaluator: Option<Arc<ModelEvaluator>>,
+}
+
+impl Service {
+  fn xml(&self, d: &MDef) -> String {
+    let body = if d.builds { SERVICE_BODY } else { self.bad_body.unwrap_or(SERVICE_BODY) };
+    model_xml(&d.ns, &d.name, body)
+  }
+  fn content_json(&self, c: &Content) -> String {
+    match c {
+      Content::Missing => "{}".to_string(),
+      Content::Bad64 => json!({"content": "%%% this is not Base64 %%%"}).to_string(),
+      Content::BadUtf8 => json!({"content": base64::encode([0x3cu8, 0xff, 0xfe, 0x41, 0xc3])}).to_string(),
+      Content::BadXml(k) => {
+        let text = match k % 4 {
+          0 => "<definitions",
+          1 => "this is not XML",
+          2 => "<a><b></a>",
+          _ => "<?xml version=\"1.0\"?><root/>",
+        };
+        json!({"content": base64::encode(text)}).to_string()
+      }
+      Content::Model(d) => json!({"content": base64::encode(self.xml(d))}).to_string(),
+    }
+  }
+  fn wire(&self, r: &Rq) -> Wire {
+    let js = Some("application/json");
+    match r {
+      Rq::Add(c) => Wire { method: "POST", path: "/definitions/add".into(), content_type: js, body: self.content_json(c).into_bytes() },
+      Rq::Replace(c) => Wire { method: "POST", path: "/definitions/replace".into(), content_type: js, body: self.content_json(c).into_bytes() },
+      Rq::Remove(ns, name) => {
+        let mut m = serde_json::Map::new();
+        if let Some(ns) = ns {
+          m.insert("namespace".into(), json!(ns));
+        }
+        if let Some(n) = name {
+          m.insert("name".into(), json!(n));
+        }
+        Wire { method: "POST", path: "/definitions/remove".into(), content_type: js, body: serde_json::Value::Object(m).to_string().into_bytes() }
+      }
+      Rq::Clear => Wire { method: "POST", path: "/definitions/clear".into(), content_type: js, body: vec![] },
+      Rq::Deploy => Wire { method: "POST", path: "/definitions/deploy".into(), content_type: js, body: vec![] },
+      Rq::Eval { model, invocable, body } => Wire { method: "POST", path: format!("/evaluate/{}/{}", model, invocable), content_type: Some("text/plain"), body: body.clone().into_bytes() },
+      Rq::Framework(k) => match k % 7 {
+        0 => Wire { method: "POST", path: "/definitions/add".into(), content_type: js, body: b"{\"content\": ".to_vec() },
+        1 => Wire { method: "POST", path: "/definitions/remove".into(), content_type: js, body: b"[1, 2".to_vec() },
+        2 => Wire { method: "POST", path: "/definitions/add".into(), content_type: js, body: vec![0x7b, 0x22, 0xff, 0xfe, 0x22, 0x3a, 0x31, 0x7d] },
+        3 => Wire { method: "POST", path: "/definitions/replace".into(), content_type: Some("text/plain"), body: b"{\"content\": \"QQ==\"}".to_vec() },
+        4 => Wire { method: "POST", path: "/no/such/endpoint".into(), content_type: js, body: b"{}".to_vec() },
+        5 => Wire { method: "GET", path: "/definitions/add".into(), content_type: None, body: vec![] },
+        _ => Wire { method: "POST", path: "/definitions/add".into(), content_type: js, body: b"{\"content\": 5}".to_vec() },
+      },
+    }
+  }
+  /// What a deployed (building) model answers: computed in-process on the same model text.
+  fn oracle(&self, invocable: &str, body: &str) -> Result<Value, String> {
+    let ctx = dmntk_feel_evaluator::evaluate_context(&Scope::default(), body).map_err(|e| e.to_string())?;
+    match &self.evaluator {
+      Some(me) => Ok(me.evaluate_invocable(invocable, &ctx)),
+      None => Err("no evaluator".into()),
+    }
+  }
+}
+
+fn content_sexp(c: &Content) -> String {
+  match c {
+    Content::Missing => "none".into(),
+    Content::Bad64 => "b64".into(),
+    Content::BadUtf8 => "utf8".into(),
+    Content::BadXml(_) => "xml".into(),
+    Content::Model(d) => format!("(m {} {} {})", d.ns, d.name, d.builds),
+  }
+}
+
+fn opt_atom(x: &Option<String>) -> String {
+  x.clone().unwrap_or_else(|| "none".to_string())
+}
+
+fn run_http(cfg: &Cfg, rep: &mut Report, model: &mut Model, rng: &mut Rng) {
+  let alpha = Alphabet::find();
+  let has_bad = alpha.bad_body.is_some();
+  let evaluator = guarded(|| dmntk_model::parse(&model_xml("nsx", "nx", SERVICE_BODY)).ok().and_then(|d| ModelEvaluator::new(&d).ok())).ok().flatten();
+  if evaluator.is_none() {
+    let why = match dmntk_model::parse(&model_xml("nsx", "nx", SERVICE_BODY)) {
+      Ok(d) => ModelEvaluator::new(&d).err().map(|e| e.to_string()).unwrap_or_default(),
+      Err(e) => e.to_string(),
+    };
+    rep.disagree(Kind::ImplVsModel, "http", "the service alphabet model does not build", "SERVICE_BODY", &why, "a model evaluator");
+    return;
+  }
+  let svc = Service { bad_body: alpha.bad_body, evaluator };
+  let mut server = match Server::start() {
+    Ok(s) => s,
+    Err(e) => {
+      rep.disagree(Kind::ImplVsSpec, "http", "the service does not start on a loopback port", "start_server(127.0.0.1, free port)", &e, "a listening service");
+      return;
+    }
+  };
+  let d = |ns: &str, n: &str, b: bool| MDef { ns: ns.into(), name: n.into(), builds: b || !has_bad };
+  let models = vec![d("ns1", "n1", true), d("ns1", "n2", true), d("ns2", "n1", true), d("ns1", "n1", false), d("ns3", "n3", true), d("ns4", "n4", false), d("ns2", "n2", true)];
+  let names = ["n1", "n2", "n3", "n4", "n9"];
+  let nss = ["ns1", "ns2", "ns3", "ns9"];
+  let thorough = cfg.tier == "thorough";
+  let n_seq = if thorough { 20_000 } else { 600 };
+
+  // GET /system/info once: data envelope
+  match http(server.port, "GET", "/system/info", None, b"") {
+    Ok(a) => {
+      let text = String::from_utf8_lossy(&a.body).to_string();
+      let ok = a.status == 200 && strict_parse(&text).map(|j| j.get("data").and_then(|d| d.get("name")).is_some()).unwrap_or(false);
+      if !ok {
+        rep.disagree(Kind::ImplVsSpec, "http", "GET /system/info does not answer a data envelope", "GET /system/info", &text, "{\"data\":{\"name\":...}}");
+      }
+    }
+    Err(e) => rep.disagree(Kind::ImplVsSpec, "http", "the service stopped answering", "GET /system/info", &e, "an answer"),
+  }
+
+  let mut sequences: Vec<Vec<Rq>> = vec![];
+  // corpus: F18 and the echo witnesses of F17
+  let echo = |g: &G| Rq::Eval { model: "n1".into(), invocable: "E".into(), body: format!("{{x: {}}}", to_feel(g)) };
+  sequences.push(vec![
+    Rq::Add(Content::Model(models[0].clone())),
+    Rq::Deploy,
+    Rq::Eval { model: "n1".into(), invocable: "D".into(), body: "{}".into() },
+    Rq::Replace(Content::Model(models[0].clone())),
+    Rq::Deploy,
+    Rq::Eval { model: "n1".into(), invocable: "D".into(), body: "{}".into() },
+  ]);
+  sequences.push(vec![
+    Rq::Add(Content::Model(models[0].clone())),
+    Rq::Deploy,
+    echo(&G::Str("Hello John Doe".into())),
+    echo(&G::Str("a\"b\\c\n".into())),
+    echo(&G::Ctx(vec![("a\"b".into(), G::Num("1".into()))])),
+    echo(&G::Expr("date(\"2021-01-01\")".into())),
+    echo(&G::List(vec![G::Num("1".into()), G::Str("é🙏".into()), G::Null, G::Bool(true)])),
+    Rq::Eval { model: "n1".into(), invocable: "E".into(), body: "{x: ".into() },
+    Rq::Eval { model: "n1".into(), invocable: "Z".into(), body: "{}".into() },
+    Rq::Eval { model: "n9".into(), invocable: "D".into(), body: "{}".into() },
+  ]);
+  for _ in 0..n_seq {
+    let len = 1 + rng.below(12) as usize;
+    let mut seq = vec![];
+    // a rough picture of the workspace, used only to aim evaluations at deployed models
+    let mut stored: Vec<String> = vec![];
+    let mut deployed = false;
+    // most sequences start by storing and deploying something, so that evaluations matter
+    if rng.chance(2, 3) {
+      let m = rng.pick(&models).clone();
+      stored.push(m.name.clone());
+      seq.push(Rq::Add(Content::Model(m)));
+      if rng.chance(2, 3) {
+        seq.push(Rq::Deploy);
+        deployed = true;
+      }
+    }
+    for _ in 0..len {
+      let content = |rng: &mut Rng, stored: &mut Vec<String>, deployed: &mut bool| match rng.below(12) {
+        0 => Content::Missing,
+        1 => Content::Bad64,
+        2 => Content::BadUtf8,
+        3 => Content::BadXml(rng.below(4) as u8),
+        _ => {
+          let m = rng.pick(&models).clone();
+          stored.push(m.name.clone());
+          *deployed = false;
+          Content::Model(m)
+        }
+      };
+      let target = |rng: &mut Rng, stored: &Vec<String>, deployed: bool| -> String {
+        if deployed && !stored.is_empty() && rng.chance(4, 5) {
+          rng.pick(stored).clone()
+        } else {
+          rng.pick(&names).to_string()
+        }
+      };
+      let r = match rng.below(20) {
+        0..=2 => Rq::Add(content(rng, &mut stored, &mut deployed)),
+        3..=5 => Rq::Replace(content(rng, &mut stored, &mut deployed)),
+        6 | 7 => {
+          let ns = if rng.chance(1, 8) { None } else { Some(rng.pick(&nss).to_string()) };
+          let name = if rng.chance(1, 8) { None } else { Some(rng.pick(&names).to_string()) };
+          if ns.is_some() && name.is_some() {
+            deployed = false;
+          }
+          Rq::Remove(ns, name)
+        }
+        8 => {
+          stored.clear();
+          deployed = false;
+          Rq::Clear
+        }
+        9..=11 => {
+          deployed = true;
+          Rq::Deploy
+        }
+        12 | 13 => Rq::Eval { model: target(rng, &stored, deployed), invocable: (*rng.pick(&["D", "D", "Z"])).to_string(), body: "{}".into() },
+        14..=17 => {
+          let (depth, e, t) = (rng.below(3) as u32, rng.chance(1, 2), rng.chance(1, 4));
+          let g = gen_value(rng, depth, e, t);
+          Rq::Eval { model: target(rng, &stored, deployed), invocable: "E".into(), body: format!("{{x: {}}}", to_feel(&g)) }
+        }
+        18 => Rq::Eval { model: target(rng, &stored, deployed), invocable: "E".into(), body: (*rng.pick(&["{x: ", "x", "{x: 1", "\u{1}", "{\"x\": [1, 2}"])).to_string() },
+        _ => Rq::Framework(rng.below(7) as u8),
+      };
+      seq.push(r);
+    }
+    sequences.push(seq);
+  }
+
+  // model requests
+  let mut reqs = vec![];
+  let mut oracles: Vec<Vec<Option<Result<Value, String>>>> = vec![];
+  for seq in &sequences {
+    let mut parts = vec![];
+    let mut os = vec![];
+    for r in seq {
+      let mut o = None;
+      match r {
+        Rq::Add(c) => parts.push(format!("(add {})", content_sexp(c))),
+        Rq::Replace(c) => parts.push(format!("(replace {})", content_sexp(c))),
+        Rq::Remove(ns, n) => parts.push(format!("(remove {} {})", opt_atom(ns), opt_atom(n))),
+        Rq::Clear => parts.push("clear".into()),
+        Rq::Deploy => parts.push("deploy".into()),
+        Rq::Eval { model, invocable, body } => {
+          let v = match guarded(|| svc.oracle(invocable, body)) {
+            Ok(v) => v,
+            Err(p) => Err(format!("panic: {}", p)),
+          };
+          match &v {
+            Ok(v) => parts.push(format!("(eval {} {} ok {})", model, invocable, to_jv(v))),
+            Err(_) => parts.push(format!("(eval {} {} bad (null))", model, invocable)),
+          }
+          o = Some(v);
+        }
+        Rq::Framework(_) => {}
+      }
+      os.push(o);
+    }
+    reqs.push(format!("(c18 serve {})", parts.join(" ")));
+    oracles.push(os);
+  }
+  let answers = model.ask_batch(&reqs);
+
+  let mut n_requests = 0u64;
+  'seqs: for (((seq, req), ans), os) in sequences.iter().zip(reqs.iter()).zip(answers.iter()).zip(oracles.iter()) {
+    let parsed = Sexp::parse(ans);
+    let m_list: Vec<Sexp> = parsed.as_ref().and_then(|a| field_list(a, "model")).unwrap_or_default();
+    let s_list: Vec<Sexp> = parsed.as_ref().and_then(|a| field_list(a, "spec")).unwrap_or_default();
+    let n_model = seq.iter().filter(|r| !matches!(r, Rq::Framework(_))).count();
+    if m_list.len() != n_model || s_list.len() != n_model {
+      rep.disagree(Kind::ImplVsModel, "http", "driver-error", req, "", ans);
+      continue;
+    }
+    // every sequence starts from an empty workspace
+    if let Err(e) = http(server.port, "POST", "/definitions/clear", Some("application/json"), b"") {
+      rep.disagree(Kind::ImplVsSpec, "http", "the service stopped answering", "POST /definitions/clear", &e, "an answer");
+      break 'seqs;
+    }
+    let mut k = 0usize;
+    let mut spec_live = true;
+    let mut stored = false;
+    let mut nontrivial = false;
+    let mut transcript: Vec<String> = vec![];
+    for (r, o) in seq.iter().zip(os.iter()) {
+      let w = svc.wire(r);
+      n_requests += 1;
+      let shown = format!("{} {} {}", w.method, w.path, String::from_utf8_lossy(&w.body).chars().take(200).collect::<String>());
+      let input = format!("{} ;; request #{} = {} ;; after: {}", req, transcript.len() + 1, shown, transcript.join(" | "));
+      let a = match http(server.port, w.method, &w.path, w.content_type, &w.body) {
+        Ok(a) => a,
+        Err(e) => {
+          let alive = server.alive();
+          rep.disagree(Kind::ImplVsSpec, "http", "the service stopped answering", &input, &format!("{} (process alive: {})", e, alive), "an answer");
+          break 'seqs;
+        }
+      };
+      transcript.push(format!("{} {}", w.method, w.path));
+      let text = match String::from_utf8(a.body.clone()) {
+        Ok(t) => t,
+        Err(_) => {
+          rep.disagree(Kind::ImplVsSpec, "response_wellformed", "response body is not UTF-8", &input, &format!("{:?}", a.body), "UTF-8 JSON text");
+          continue;
+        }
+      };
+      let body_json = strict_parse(&text);
+      let serde_ok = serde_accepts(&text);
+      if serde_ok.is_some() && Some(body_json.is_ok()) != serde_ok {
+        rep.disagree(Kind::ImplVsModel, "decode", "strict parser and serde_json differ on acceptance", &input, &format!("{}", body_json.is_ok()), &format!("{:?}", serde_ok));
+      }
+      if !a.content_type.to_ascii_lowercase().starts_with("application/json") {
+        rep.disagree(Kind::ImplVsSpec, "response_wellformed", "response content type is not application/json", &input, &a.content_type, "application/json");
+      }
+      if let Rq::Framework(kind) = r {
+        rep.hit(&format!("http:framework-rejected:{}", kind % 7));
+        // answered by actix-web's error handler (400) or by the default service (`not_found`
+        // answers 200): in both cases a well-formed `errors` envelope
+        let shape = matches!(&body_json, Ok(j) if matches!(j.get("errors"), Some(J::Arr(xs)) if xs.len() == 1 && matches!(xs[0].get("details"), Some(J::Str(_)))));
+        if !shape || !(a.status == 200 || (400..500).contains(&a.status)) {
+          rep.disagree(
+            Kind::ImplVsSpec,
+            "response_wellformed",
+            &format!("request rejected before a handler runs (kind {}) is not answered with an errors envelope", kind % 7),
+            &input,
+            &format!("{} {}", a.status, text),
+            "{\"errors\":[{\"details\":...}]}",
+          );
+        }
+        continue;
+      }
+      let m = &m_list[k];
+      let s = &s_list[k];
+      k += 1;
+      let ml = m.as_list().unwrap_or(&[]);
+      let m_kind = ml.first().map(|x| x.to_string()).unwrap_or_default();
+      let m_body = ml.get(1).and_then(chars_of).unwrap_or_default();
+      let m_wf = ml.get(3).and_then(|x| x.as_atom()) == Some("true");
+      let sl = s.as_list().unwrap_or(&[]);
+      let s_kind = sl.first().map(|x| x.to_string()).unwrap_or_default();
+      let s_json = sl.get(2).map(|x| x.to_string()).unwrap_or_default();
+      rep.hit(&format!("http:{}:{}", endpoint(r), m_kind));
+      if m_kind == "added" {
+        stored = true;
+      } else if stored && !matches!(r, Rq::Clear) {
+        nontrivial = true;
+      }
+      if a.status != 200 {
+        rep.disagree(Kind::ImplVsSpec, "http", "handler answer does not have status 200", &input, &format!("{} {}", a.status, text), "200");
+      }
+      // -------- well-formedness (the property, on the implementation alone)
+      let mut t = Traits::default();
+      let mut numsok = true;
+      if let Some(Ok(v)) = o {
+        traits(v, &mut t);
+        numsok = number_texts_ok(v);
+      }
+      if let Err(e) = &body_json {
+        let sig = if m_kind == "value" { failure_signature(&t, numsok) } else { "response body is not well-formed JSON" };
+        rep.disagree(Kind::ImplVsSpec, "response_wellformed", sig, &input, &format!("{} is not a JSON document: {}", text, e), "a JSON document");
+      }
+      // -------- tie: the handler model answers the same body
+      let free_text = m_kind == "(error parse)" || m_kind == "(error input)";
+      if free_text {
+        let shape = matches!(&body_json, Ok(j) if matches!(j.get("errors"), Some(J::Arr(xs)) if xs.len() == 1 && matches!(xs[0].get("details"), Some(J::Str(_)))));
+        if !shape {
+          rep.disagree(Kind::ImplVsModel, "http", &format!("answer differs from the handler model ({})", endpoint(r)), &input, &text, &format!("{} with the parser's message", m_kind));
+        }
+      } else if text != m_body {
+        rep.disagree(Kind::ImplVsModel, "http", &format!("answer differs from the handler model ({})", endpoint(r)), &input, &text, &m_body);
+      } else if body_json.is_ok() != m_wf {
+        rep.disagree(Kind::ImplVsModel, "decode", "Lean decoder and strict parser differ", &input, &format!("{}", body_json.is_ok()), &format!("{}", m_wf));
+      }
+      // -------- the specification: repaired handlers, value decoded
+      if spec_live {
+        if let Ok(j) = &body_json {
+          let same = if s_kind == "(error parse)" || s_kind == "(error input)" { j.get("errors").is_some() } else { j.sexp().to_string() == s_json };
+          if !same {
+            let sig = if matches!(r, Rq::Replace(_)) {
+              SIG_REPLACE.to_string()
+            } else if m_kind == "value" {
+              failure_signature(&t, numsok).to_string()
+            } else {
+              format!("answer differs from the specification ({})", endpoint(r))
+            };
+            rep.disagree(Kind::ImplVsSpec, "handlers_refine_workspace", &sig, &input, &text, &s_json);
+            // the states have diverged: the rest of this sequence is compared with the model only
+            spec_live = false;
+          }
+        } else if m_kind != s_kind {
+          spec_live = false;
+        }
+      }
+      if rep.samples.len() < 12 && (m_kind == "value" || matches!(r, Rq::Replace(_))) && rng.chance(1, 20) {
+        rep.sample(json!({"family": "http", "request": shown, "status": a.status, "body": text, "model_body": m_body}));
+      }
+    }
+    rep.case(req, nontrivial);
+    rep.hit(&format!("http:sequence-length:{}", if seq.len() > 8 { ">8".to_string() } else { seq.len().to_string() }));
+  }
+  run_tck(cfg, rep, model, rng, &svc, &mut server, &models[0]);
+  run_parallel_clients(cfg, rep, rng, &svc, &mut server, &models);
+  // the service survived everything
+  if !server.alive() {
+    rep.disagree(Kind::ImplVsSpec, "http", "the service process ended during the run", "(whole run)", "process ended", "a running service");
+  }
+  rep.extra.insert("http_requests".into(), json!(n_requests));
+  rep.extra.insert("http_sequences".into(), json!(sequences.len()));
+}
+
+
+// ------------------------------------------------------------------------------------------
+// family `tck`: typed values in TCK format through POST /tck/evaluate and back
+// ------------------------------------------------------------------------------------------
+
+#[derive(Debug, Clone)]
+enum T {
+  Null,
+  Bool(bool),
+  Str(String),
+  /// kind, text as sent
+  Scalar(&'static str, String),
+  List(Vec<T>),
+  Ctx(Vec<(String, T)>),
+}
+
+fn gen_tv(rng: &mut Rng, depth: u32) -> T {
+  let k = if depth == 0 { rng.below(7) } else { rng.below(10) };
+  match k {
+    0 => T::Null,
+    1 => T::Bool(rng.chance(1, 2)),
+    2 | 3 => T::Str(gen_string(rng, true)),
+    4 => {
+      // plain decimals; small negative magnitudes are left to the jsonify family (finding F17c)
+      let mut t = gen_number(rng);
+      if t.starts_with("-0.0000") {
+        t = t[1..].to_string();
+      }
+      T::Scalar("number", t)
+    }
+    5 => match rng.below(5) {
+      0 => T::Scalar("date", format!("{}-{:02}-{:02}", 1000 + rng.below(2000), 1 + rng.below(12), 1 + rng.below(28))),
+      1 => T::Scalar("time", format!("{:02}:{:02}:{:02}", rng.below(24), rng.below(60), rng.below(60))),
+      2 => T::Scalar("dateTime", format!("{}-{:02}-{:02}T{:02}:{:02}:{:02}", 1000 + rng.below(2000), 1 + rng.below(12), 1 + rng.below(28), rng.below(24), rng.below(60), rng.below(60))),
+      3 => T::Scalar("ymDuration", (*rng.pick(&["P1Y", "P1Y2M", "P11M", "-P3Y", "P0M", "P14M"])).to_string()),
+      _ => T::Scalar("dtDuration", (*rng.pick(&["P1D", "PT2H", "P1DT2H3M4S", "-PT5M", "PT0S", "PT36H"])).to_string()),
+    },
+    6 => T::Scalar("number", (*rng.pick(&["1.50", "007", "1e3", "+5", "0.10", "100"])).to_string()),
+    7 | 8 => T::List((0..rng.below(4)).map(|_| gen_tv(rng, depth - 1)).collect()),
+    _ => {
+      let mut es: Vec<(String, T)> = vec![];
+      for _ in 0..rng.below(4) {
+        let key = (*rng.pick(&["a", "b", "key", "Full Name", "k1", "k2", "x y z", "n"])).to_string();
+        if es.iter().any(|(k, _)| *k == key) {
+          continue;
+        }
+        es.push((key, gen_tv(rng, depth - 1)));
+      }
+      es.sort_by(|a, b| a.0.cmp(&b.0));
+      T::Ctx(es)
+    }
+  }
+}
+
+fn xsd_of(kind: &str) -> &'static str {
+  match kind {
+    "number" => "xsd:decimal",
+    "date" => "xsd:date",
+    "time" => "xsd:time",
+    "dateTime" => "xsd:dateTime",
+    _ => "xsd:duration",
+  }
+}
+
+/// `ValueDto` JSON as the TCK runner sends it (and as serde writes it back).
+fn tv_dto(t: &T) -> serde_json::Value {
+  match t {
+    T::Null => json!({"simple": {"type": null, "text": null, "isNil": true}, "components": null, "list": null}),
+    T::Bool(b) => json!({"simple": {"type": "xsd:boolean", "text": b.to_string(), "isNil": false}, "components": null, "list": null}),
+    T::Str(s) => json!({"simple": {"type": "xsd:string", "text": s, "isNil": false}, "components": null, "list": null}),
+    T::Scalar(k, text) => json!({"simple": {"type": xsd_of(k), "text": text, "isNil": false}, "components": null, "list": null}),
+    T::List(xs) => json!({"simple": null, "components": null, "list": {"items": xs.iter().map(tv_dto).collect::<Vec<_>>(), "isNil": false}}),
+    T::Ctx(es) => json!({"simple": null, "list": null, "components": es.iter().map(|(k, v)| json!({"name": k, "value": tv_dto(v), "isNil": false})).collect::<Vec<_>>()}),
+  }
+}
+
+fn tv_sexp(t: &T) -> Sexp {
+  match t {
+    T::Null => Sexp::list(vec![Sexp::atom("null")]),
+    T::Bool(b) => Sexp::tagged("b", vec![Sexp::bool(*b)]),
+    T::Str(s) => Sexp::tagged("str", vec![Sexp::str(s)]),
+    T::Scalar(k, text) => Sexp::tagged("k", vec![Sexp::atom(*k), Sexp::str(text)]),
+    T::List(xs) => Sexp::tagged("l", xs.iter().map(tv_sexp).collect()),
+    T::Ctx(es) => Sexp::tagged("c", es.iter().map(|(k, v)| Sexp::list(vec![Sexp::str(k), tv_sexp(v)])).collect()),
+  }
+}
+
+/// What the text readers of the implementation answer (in-process), as rows for the driver.
+fn reader_rows(t: &T, rows: &mut Vec<String>) {
+  fn push_row(rows: &mut Vec<String>, kind: &str, text: &str, canon: Option<String>) {
+    let c = match canon {
+      Some(c) => Sexp::str(&c).to_string(),
+      None => "none".to_string(),
+    };
+    let r = format!("({} {} {})", kind, Sexp::str(text), c);
+    if !rows.contains(&r) {
+      rows.push(r);
+    }
+  }
+  match t {
+    T::Scalar(kind, text) => {
+      let show = |r: dmntk_common::Result<Value>| r.ok().map(|v| v.to_string());
+      match *kind {
+        "number" => push_row(rows, "number", text, guarded(|| show(Value::try_from_xsd_decimal(text))).ok().flatten()),
+        "date" => push_row(rows, "date", text, guarded(|| show(Value::try_from_xsd_date(text))).ok().flatten()),
+        "time" => push_row(rows, "time", text, guarded(|| show(Value::try_from_xsd_time(text))).ok().flatten()),
+        "dateTime" => push_row(rows, "dateTime", text, guarded(|| show(Value::try_from_xsd_date_time(text))).ok().flatten()),
+        _ => {
+          // `try_from_xsd_duration` tries years-and-months first
+          let v = guarded(|| Value::try_from_xsd_duration(text).ok()).ok().flatten();
+          let (ym, dt) = match &v {
+            Some(Value::YearsAndMonthsDuration(_)) => (v.as_ref().map(|x| x.to_string()), None),
+            Some(Value::DaysAndTimeDuration(_)) => (None, v.as_ref().map(|x| x.to_string())),
+            _ => (None, None),
+          };
+          push_row(rows, "ymDuration", text, ym);
+          push_row(rows, "dtDuration", text, dt);
+        }
+      }
+    }
+    T::List(xs) => xs.iter().for_each(|x| reader_rows(x, rows)),
+    T::Ctx(es) => {
+      for (k, v) in es {
+        push_row(rows, "name", k, guarded(|| dmntk_feel_parser::parse_longest_name(k).ok().map(|n| n.to_string())).ok().flatten());
+        reader_rows(v, rows);
+      }
+    }
+    _ => {}
+  }
+}
+
+fn serde_to_j(v: &serde_json::Value) -> J {
+  match v {
+    serde_json::Value::Null => J::Null,
+    serde_json::Value::Bool(b) => J::Bool(*b),
+    serde_json::Value::Number(n) => J::Num(n.to_string()),
+    serde_json::Value::String(s) => J::Str(s.clone()),
+    serde_json::Value::Array(xs) => J::Arr(xs.iter().map(serde_to_j).collect()),
+    serde_json::Value::Object(m) => J::Obj(m.iter().map(|(k, v)| (k.clone(), serde_to_j(v))).collect()),
+  }
+}
+
+/// Object members sorted by name (serde_json's map and the service's structs order differently).
+fn sorted_j(j: &J) -> J {
+  match j {
+    J::Arr(xs) => J::Arr(xs.iter().map(sorted_j).collect()),
+    J::Obj(ms) => {
+      let mut ms: Vec<(String, J)> = ms.iter().map(|(k, v)| (k.clone(), sorted_j(v))).collect();
+      ms.sort_by(|a, b| a.0.cmp(&b.0));
+      J::Obj(ms)
+    }
+    other => other.clone(),
+  }
+}
+
+fn run_tck(cfg: &Cfg, rep: &mut Report, model: &mut Model, rng: &mut Rng, svc: &Service, server: &mut Server, m: &MDef) {
+  let n = if cfg.tier == "thorough" { 20_000 } else { 600 };
+  let js = Some("application/json");
+  let setup = [
+    ("/definitions/clear", String::new()),
+    ("/definitions/add", svc.content_json(&Content::Model(m.clone()))),
+    ("/definitions/deploy", String::new()),
+  ];
+  for (path, body) in setup {
+    if let Err(e) = http(server.port, "POST", path, js, body.as_bytes()) {
+      rep.disagree(Kind::ImplVsSpec, "http", "the service stopped answering", path, &e, "an answer");
+      return;
+    }
+  }
+  let mut cases = vec![];
+  for _ in 0..n {
+    let depth = rng.below(3) as u32;
+    cases.push(gen_tv(rng, depth));
+  }
+  let reqs: Vec<String> = cases
+    .iter()
+    .map(|t| {
+      let mut rows = vec![];
+      reader_rows(t, &mut rows);
+      format!("(c18 dto {} {})", tv_sexp(t), rows.join(" "))
+    })
+    .collect();
+  let answers = model.ask_batch(&reqs);
+  // requests the handler (or the JSON extractor) must reject: an `errors` answer each, and the
+  // valid requests in between are answered as usual
+  let simple = |typ: &str, text: &str| json!({"simple": {"type": typ, "text": text, "isNil": false}, "components": null, "list": null});
+  let rejected: Vec<(&str, serde_json::Value)> = vec![
+    ("missing model", json!({"invocable": "E", "input": []})),
+    ("missing invocable", json!({"model": m.name, "input": []})),
+    ("missing input", json!({"model": m.name, "invocable": "E"})),
+    ("unknown model", json!({"model": "nope", "invocable": "E", "input": []})),
+    ("unknown type", json!({"model": m.name, "invocable": "E", "input": [{"name": "x", "value": simple("xsd:unknown", "1")}]})),
+    ("bad decimal", json!({"model": m.name, "invocable": "E", "input": [{"name": "x", "value": simple("xsd:decimal", "12abc")}]})),
+    ("bad date", json!({"model": m.name, "invocable": "E", "input": [{"name": "x", "value": simple("xsd:date", "2021-13-45")}]})),
+    ("no attribute", json!({"model": m.name, "invocable": "E", "input": [{"name": "x", "value": {"simple": null, "components": null, "list": null}}]})),
+    ("no value", json!({"model": m.name, "invocable": "E", "input": [{"name": "x"}]})),
+    ("component without name", json!({"model": m.name, "invocable": "E", "input": [{"name": "x", "value": {"simple": null, "list": null, "components": [{"value": simple("xsd:string", "a"), "isNil": false}]}}]})),
+    ("component without value", json!({"model": m.name, "invocable": "E", "input": [{"name": "x", "value": {"simple": null, "list": null, "components": [{"name": "a", "isNil": false}]}}]})),
+    ("missing isNil", json!({"model": m.name, "invocable": "E", "input": [{"name": "x", "value": {"simple": {"type": "xsd:string", "text": "a"}}}]})),
+    ("input not a list", json!({"model": m.name, "invocable": "E", "input": {"name": "x"}})),
+  ];
+  for (ci, ((t, req), ans)) in cases.iter().zip(reqs.iter()).zip(answers.iter()).enumerate() {
+    if ci % 23 == 0 {
+      let (what, body) = &rejected[(ci / 23) % rejected.len()];
+      let body = body.to_string();
+      match http(server.port, "POST", "/tck/evaluate", js, body.as_bytes()) {
+        Ok(a) => {
+          let text = String::from_utf8_lossy(&a.body).to_string();
+          let shape = matches!(strict_parse(&text), Ok(j) if matches!(j.get("errors"), Some(J::Arr(xs)) if xs.len() == 1 && matches!(xs[0].get("details"), Some(J::Str(_)))));
+          rep.hit(&format!("tck:rejected:{}", what));
+          if !shape {
+            rep.disagree(Kind::ImplVsSpec, "bad_request_no_state_change", &format!("malformed TCK request ({}) is not answered in the errors member", what), &format!("POST /tck/evaluate {}", body), &format!("{} {}", a.status, text), "{\"errors\":[{\"details\":...}]}");
+          }
+        }
+        Err(e) => {
+          rep.disagree(Kind::ImplVsSpec, "http", "the service stopped answering", &format!("POST /tck/evaluate {}", body), &e, "an answer");
+          return;
+        }
+      }
+    }
+    let sent = tv_dto(t);
+    let body = json!({"model": m.name, "invocable": "E", "input": [{"name": "x", "value": sent}]}).to_string();
+    let input = format!("{} ;; POST /tck/evaluate {}", req, body.chars().take(400).collect::<String>());
+    rep.case(req, !matches!(t, T::Null | T::Bool(_)));
+    let a = match http(server.port, "POST", "/tck/evaluate", js, body.as_bytes()) {
+      Ok(a) => a,
+      Err(e) => {
+        rep.disagree(Kind::ImplVsSpec, "http", "the service stopped answering", &input, &e, "an answer");
+        return;
+      }
+    };
+    let text = String::from_utf8_lossy(&a.body).to_string();
+    let parsed = match strict_parse(&text) {
+      Ok(j) => j,
+      Err(e) => {
+        rep.disagree(Kind::ImplVsSpec, "response_wellformed", "response body is not well-formed JSON", &input, &format!("{}: {}", text, e), "a JSON document");
+        continue;
+      }
+    };
+    let am = Sexp::parse(ans);
+    let m_dto = am.as_ref().and_then(|x| field(x, "dto")).map(|x| x.to_string());
+    let m_back = am.as_ref().and_then(|x| field(x, "back")).map(|x| x.to_string()).unwrap_or_default();
+    let canonical = am.as_ref().and_then(|x| field(x, "canonical")).and_then(|x| x.as_atom().map(|a| a == "true")).unwrap_or(false);
+    let m_dto = match m_dto {
+      Some(d) => d,
+      None => {
+        rep.disagree(Kind::ImplVsModel, "dto", "driver-error", &input, &text, ans);
+        continue;
+      }
+    };
+    let got_value = parsed.get("data").and_then(|d| d.get("value")).cloned();
+    rep.hit(&format!(
+      "tck:{}:{}",
+      if canonical { "canonical" } else { "non-canonical" },
+      if got_value.is_some() { "value" } else if parsed.get("errors").is_some() { "errors" } else { "other" }
+    ));
+    if m_back == "none" {
+      // the model's reader rejects the DTO: an `errors` answer is expected
+      if parsed.get("errors").is_none() {
+        rep.disagree(Kind::ImplVsModel, "dto", "tck answer differs from the DTO model (model rejects the input)", &input, &text, "an errors answer");
+      }
+      continue;
+    }
+    let got = match got_value {
+      Some(g) => g,
+      None => {
+        rep.disagree(Kind::ImplVsModel, "dto", "tck answer differs from the DTO model (no data.value)", &input, &text, &m_dto);
+        continue;
+      }
+    };
+    // the property: a canonical typed value comes back as it was sent
+    if canonical {
+      let sent_j = sorted_j(&serde_to_j(&sent));
+      if sorted_j(&got) != sent_j {
+        rep.disagree(Kind::ImplVsSpec, "dto_roundtrip", "a typed value sent in TCK format does not come back unchanged", &input, &got.sexp().to_string(), &sent_j.sexp().to_string());
+      }
+    }
+    // tie: the DTO written for the value read is the model's (readers as observed in-process);
+    // (for non-canonical input the value read differs from the one sent)
+    let m_backdto = am.as_ref().and_then(|x| field(x, "backdto")).map(|x| x.to_string()).unwrap_or_default();
+    if sorted_j(&got).sexp().to_string() != sorted_by_text(&m_backdto) {
+      rep.disagree(Kind::ImplVsModel, "dto", "tck answer differs from the DTO model", &input, &sorted_j(&got).sexp().to_string(), &sorted_by_text(&m_backdto));
+    }
+    if canonical && m_backdto != m_dto {
+      rep.disagree(Kind::ImplVsModel, "dto", "model violates dto_roundtrip", &input, &m_backdto, &m_dto);
+    }
+    if rng.chance(1, 200) {
+      rep.sample(json!({"family": "tck", "sent": sent, "answer": text}));
+    }
+  }
+}
+
+/// The driver's JSON S-expression with object members sorted by name.
+fn sorted_by_text(json_sexp: &str) -> String {
+  fn conv(s: &Sexp) -> J {
+    match s {
+      Sexp::Atom(a) if a == "null" => J::Null,
+      Sexp::List(l) => match l.first().and_then(|x| x.as_atom()) {
+        Some("b") => J::Bool(l.get(1).and_then(|x| x.as_atom()) == Some("true")),
+        Some("n") => J::Num(l.get(1).and_then(chars_of).unwrap_or_default()),
+        Some("str") => J::Str(l.get(1).and_then(chars_of).unwrap_or_default()),
+        Some("arr") => J::Arr(l[1..].iter().map(conv).collect()),
+        Some("obj") => J::Obj(
+          l[1..]
+            .iter()
+            .filter_map(|m| {
+              let p = m.as_list()?;
+              Some((chars_of(p.first()?)?, conv(p.get(1)?)))
+            })
+            .collect(),
+        ),
+        _ => J::Null,
+      },
+      _ => J::Null,
+    }
+  }
+  match Sexp::parse(json_sexp) {
+    Some(s) => sorted_j(&conv(&s)).sexp().to_string(),
+    None => String::new(),
+  }
+}
+
+// ------------------------------------------------------------------------------------------
+// family `parallel`: several clients at once — only well-formedness and survival are checked
+// (answers depend on the order in which the service takes the workspace lock)
+// ------------------------------------------------------------------------------------------
+
+fn run_parallel_clients(cfg: &Cfg, rep: &mut Report, rng: &mut Rng, svc: &Service, server: &mut Server, models: &[MDef]) {
+  let clients = 6usize;
+  let per_client = if cfg.tier == "thorough" { 3000 } else { 150 };
+  // an over-long body first: the JSON extractor's 4 MiB limit answers an errors envelope
+  let big = format!("{{\"content\": \"{}\"}}", "QUJD".repeat(1_200_000));
+  match http(server.port, "POST", "/definitions/add", Some("application/json"), big.as_bytes()) {
+    Ok(a) => {
+      let text = String::from_utf8_lossy(&a.body).to_string();
+      rep.hit("parallel:over-limit-body");
+      if !matches!(strict_parse(&text), Ok(j) if j.get("errors").is_some()) {
+        rep.disagree(Kind::ImplVsSpec, "response_wellformed", "a body over the 4 MiB limit is not answered with an errors envelope", "POST /definitions/add with a 4.8 MB body", &format!("{} {}", a.status, text.chars().take(300).collect::<String>()), "{\"errors\":[...]}");
+      }
+    }
+    Err(e) => {
+      // the service may close the connection while the client is still sending: not a JSON answer,
+      // but the service must go on answering
+      rep.hit("parallel:over-limit-body-connection-closed");
+      rep.notes.push(format!("over-limit body: connection ended without an answer ({})", e));
+    }
+  }
+  let port = server.port;
+  let mut wires: Vec<Vec<(String, Wire, Option<&'static str>)>> = vec![];
+  for _ in 0..clients {
+    let mut ws = vec![];
+    for _ in 0..per_client {
+      // the finding a non-JSON answer to this request would be an instance of, if any
+      let mut issue: Option<&'static str> = None;
+      let r = match rng.below(12) {
+        0 => Rq::Add(Content::Model(rng.pick(models).clone())),
+        1 => Rq::Replace(Content::Model(rng.pick(models).clone())),
+        2 => Rq::Remove(Some("ns1".into()), Some("n1".into())),
+        3 => Rq::Clear,
+        4 | 5 => Rq::Deploy,
+        6 => Rq::Add(Content::BadUtf8),
+        7 => Rq::Framework(rng.below(7) as u8),
+        8 => Rq::Eval { model: "n1".into(), invocable: "D".into(), body: "{}".into() },
+        _ => {
+          let g = gen_value(rng, 2, false, false);
+          if let Ok(Some(v)) = guarded(|| to_value(&g)) {
+            let mut t = Traits::default();
+            traits(&v, &mut t);
+            let numsok = number_texts_ok(&v);
+            if t.other_kind || t.needs_escape || !numsok {
+              issue = Some(failure_signature(&t, numsok));
+            }
+          }
+          Rq::Eval { model: (*rng.pick(&["n1", "n2", "n3"])).to_string(), invocable: "E".into(), body: format!("{{x: {}}}", to_feel(&g)) }
+        }
+      };
+      ws.push((endpoint(&r).to_string(), svc.wire(&r), issue));
+    }
+    wires.push(ws);
+  }
+  let handles: Vec<_> = wires
+    .into_iter()
+    .map(|ws| {
+      std::thread::spawn(move || {
+        let mut bad: Vec<(String, String, Option<&'static str>)> = vec![];
+        let mut n = 0u64;
+        for (what, w, issue) in ws {
+          n += 1;
+          match http(port, w.method, &w.path, w.content_type, &w.body) {
+            Ok(a) => {
+              let text = String::from_utf8_lossy(&a.body).to_string();
+              let ok = matches!(strict_parse(&text), Ok(j) if j.get("data").is_some() || j.get("errors").is_some());
+              if !ok {
+                bad.push((format!("{} {} {} {}", w.method, w.path, what, String::from_utf8_lossy(&w.body).chars().take(300).collect::<String>()), format!("{} {}", a.status, text.chars().take(300).collect::<String>()), issue));
+              }
+            }
+            Err(e) => bad.push((format!("{} {} {}", w.method, w.path, what), format!("no answer: {}", e), None)),
+          }
+        }
+        (n, bad)
+      })
+    })
+    .collect();
+  let mut total = 0u64;
+  for h in handles {
+    if let Ok((n, bad)) = h.join() {
+      total += n;
+      for (req, got, issue) in bad {
+        let sig = issue.unwrap_or("under parallel clients a request is not answered with a well-formed data/errors envelope");
+        rep.disagree(Kind::ImplVsSpec, "response_wellformed", sig, &req, &got, "{\"data\":...} or {\"errors\":[...]}");
+      }
+    }
+  }
+  rep.hit("parallel:clients-finished");
+  rep.extra.insert("parallel_requests".into(), json!(total));
+  // and the service still answers sequentially
+  match http(port, "GET", "/system/info", None, b"") {
+    Ok(a) if a.status == 200 => {}
+    other => rep.disagree(Kind::ImplVsSpec, "http", "the service stopped answering", "GET /system/info after the parallel clients", &format!("{:?}", other.map(|a| a.status)), "200"),
+  }
+}
+
+fn field_list(a: &Sexp, tag: &str) -> Option<Vec<Sexp>> {
+  a.as_list()?.iter().find_map(|p| {
+    let l = p.as_list()?;
+    if l.first()?.as_atom()? == tag {
+      Some(l[1..].to_vec())
+    } else {
+      None
+    }
+  })
+}
+
+fn endpoint(r: &Rq) -> &'static str {
+  match r {
+    Rq::Add(_) => "add",
+    Rq::Replace(_) => "replace",
+    Rq::Remove(_, _) => "remove",
+    Rq::Clear => "clear",
+    Rq::Deploy => "deploy",
+    Rq::Eval { .. } => "evaluate",
+    Rq::Framework(_) => "framework",
+  }
+}
+
+/// Every number text inside the value is a number of the JSON grammar (harness's own check).
+fn number_texts_ok(v: &Value) -> bool {
+  match v {
+    Value::Number(n) => matches!(strict_parse(&n.to_string()), Ok(J::Num(_))),
+    Value::List(items) => items.as_vec().iter().all(number_texts_ok),
+    Value::Context(ctx) => ctx.iter().all(|(_, x)| number_texts_ok(x)),
+    _ => true,
+  }
+}
+
+pub fn run(cfg: &Cfg) -> Report {
+  let mut rep = Report::new(
+    "C18",
+    "jsonify: generated values (strings and keys over an alphabet with quotes, backslashes, control and non-ASCII characters; numbers; lists; contexts; temporal values), non-trivial when the value contains a string, a key or a compound; decode: generated and damaged JSON texts longer than 4 characters; http: request sequences against the running service, non-trivial when a successful add is followed by another operation or evaluation; distinct by request line.",
+  );
+  let mut model = Model::start(&cfg.driver);
+  let mut rng = Rng::new(cfg.seed);
+  let only: Option<&str> = cfg.extra.iter().find_map(|x| x.strip_prefix("--only="));
+  if only.is_none() || only == Some("jsonify") {
+    let mut r = rng.fork();
+    run_jsonify(cfg, &mut rep, &mut model, &mut r);
+  }
+  if only.is_none() || only == Some("decode") {
+    let mut r = rng.fork();
+    run_decode(cfg, &mut rep, &mut model, &mut r);
+  }
+  if only.is_none() || only == Some("http") {
+    let mut r = rng.fork();
+    run_http(cfg, &mut rep, &mut model, &mut r);
+  }
+  rep.notes.push("oracles consulted: strict RFC 8259 parser of the harness and serde_json (second opinions on the Lean decoder); in-process ModelEvaluator for the value a deployed model answers".into());
+  rep.model_requests = model.requests;
+  rep
 }
